@@ -3,6 +3,7 @@ package main
 import (
 	"context"
 	"fmt"
+	"os"
 	"sort"
 	"strings"
 	"sync"
@@ -89,6 +90,60 @@ func serverSequence(r *vk.Run, ent srvkit.ServerEntry, rng *vk.Rand, steps int, 
 		}
 		return len(diffs) == 0
 	}
+	// probe calls every read-only unary RPC (Describe*, or a request with a read_mask) with a plain request and
+	// renders the answers
+	probe := func() map[string]string {
+		out := map[string]string{}
+		for _, pm := range ms {
+			if pm.unary == nil {
+				continue
+			}
+			var reqd proto.Message
+			dec := func(x any) error {
+				reqd = x.(proto.Message)
+				if fd := reqd.ProtoReflect().Descriptor().Fields().ByName("name"); fd != nil && fd.Kind() == protoreflect.StringKind && !fd.IsList() {
+					reqd.ProtoReflect().Set(fd, protoreflect.ValueOfString("dev"))
+				}
+				if !strings.HasPrefix(pm.name, "Describe") && reqd.ProtoReflect().Descriptor().Fields().ByName("read_mask") == nil {
+					return errNotAReader
+				}
+				return nil
+			}
+			var resp any
+			var err error
+			if p, what := vk.Recover(func() { resp, err = pm.unary.Handler(pm.s.Impl, context.Background(), dec, nil) }); p {
+				out[pm.name] = "panic: " + what
+				continue
+			}
+			if err == errNotAReader {
+				continue
+			}
+			if err != nil {
+				out[pm.name] = "error: " + err.Error()
+			} else if m, ok := resp.(proto.Message); ok {
+				out[pm.name] = vk.JSON(m)
+			}
+		}
+		return out
+	}
+	// what the server describes about itself (preset names, mode names, ...) is known from the start
+	for _, pm := range ms {
+		if pm.unary != nil && strings.HasPrefix(pm.name, "Describe") {
+			dec := func(x any) error {
+				if fd := x.(proto.Message).ProtoReflect().Descriptor().Fields().ByName("name"); fd != nil && fd.Kind() == protoreflect.StringKind && !fd.IsList() {
+					x.(proto.Message).ProtoReflect().Set(fd, protoreflect.ValueOfString("dev"))
+				}
+				return nil
+			}
+			vk.Recover(func() {
+				if resp, err := pm.unary.Handler(pm.s.Impl, context.Background(), dec, nil); err == nil {
+					if m, ok := resp.(proto.Message); ok {
+						observe("response:"+pm.name, m)
+					}
+				}
+			})
+		}
+	}
 	for st := 0; st < steps; st++ {
 		obsMu.Lock()
 		stepNo = st
@@ -126,6 +181,17 @@ func serverSequence(r *vk.Run, ent srvkit.ServerEntry, rng *vk.Rand, steps int, 
 			req := x.(proto.Message)
 			g := vk.GenMessage(rng, req, vk.GenOpts{Density: 35, MaxDepth: 2, MaxList: 2})
 			proto.Merge(req, g)
+			if rng.Bool() {
+				// half of the requests carry their payload message whatever the generator's density left out
+				fds := req.ProtoReflect().Descriptor().Fields()
+				for i := 0; i < fds.Len(); i++ {
+					fd := fds.Get(i)
+					if fd.Message() != nil && !fd.IsList() && !fd.IsMap() && !req.ProtoReflect().Has(fd) && fd.Message().FullName() != "google.protobuf.FieldMask" {
+						sub := req.ProtoReflect().Mutable(fd).Message().Interface()
+						proto.Merge(sub, vk.GenMessage(rng, sub, vk.GenOpts{Density: 60, MaxDepth: 2, MaxList: 2}))
+					}
+				}
+			}
 			pool.Apply(rng, req.ProtoReflect(), 0)
 			captured = req
 			return nil
@@ -154,12 +220,36 @@ func serverSequence(r *vk.Run, ent srvkit.ServerEntry, rng *vk.Rand, steps int, 
 			return
 		}
 		if captured != nil {
+			// what the read-only RPCs answer must not depend on what the caller does to its request afterwards either
+			// (the request may alias state that no retained message shares)
+			var before1, before2 map[string]string
+			doProbe := true
+			if os.Getenv("VERIF_DEBUG") != "" && m.name == "UpdateBrightness" {
+				fmt.Fprintf(os.Stderr, "DEBUG %s probe=%v err=%v req=%s\n", ent.Name, doProbe, err, vk.JSON(captured))
+			}
+			if doProbe {
+				before1, before2 = probe(), probe()
+			}
 			for k := 0; k < 4; k++ {
 				vk.Mutate(rng, captured, vk.GenOpts{Density: 35, MaxDepth: 2, MaxList: 2})
 			}
 			scribbleStrings(captured.ProtoReflect(), 0)
 			if _, ok := r.MustQuiesce("c07-srv-scribble"); !ok {
 				return
+			}
+			if doProbe {
+				after := probe()
+				for name, b := range before1 {
+					if before2[name] != b {
+						r.Count("server-probe-skipped-call-dependent-reader", 1)
+						continue
+					}
+					r.Count("server-probes-compared", 1)
+					if after[name] != b {
+						r.Violation(fmt.Sprintf("C07/input-aliased/%s.%s", ent.Name, m.name), fmt.Sprintf("server case %d step %d: after the caller modified the request it had passed to %s, the read-only %s answers %s; before the modification it answered %s", caseNo, st, m.name, name, after[name], b), map[string]any{"server": ent.Name, "case": caseNo})
+						return
+					}
+				}
 			}
 			diffs := sh.VerifyAll()
 			for _, d := range diffs {
@@ -179,6 +269,8 @@ func serverSequence(r *vk.Run, ent srvkit.ServerEntry, rng *vk.Rand, steps int, 
 		r.Sample("server", map[string]any{"server": ent.Name, "methods": len(ms), "retained": sh.Len()})
 	}
 }
+
+var errNotAReader = fmt.Errorf("not a read-only method")
 
 // scribbleStrings overwrites every string and nested message scalar reachable from m, so that aliasing of any
 // sub-message of the request shows.
